@@ -158,6 +158,32 @@ impl RawConn {
         Ok(RawConn { conn, _endpoint: endpoint })
     }
 
+    /// One endpoint and ONE TLS client configuration (hence one session-ticket store) used for two
+    /// dials in a row: first `first`, then `second`. Returns both connections' results.
+    pub async fn connect_twice_with_one_config(first: SocketAddr, second: SocketAddr, ca: &[u8], id: Option<&Identity>) -> (Result<Self>, Result<Self>) {
+        let cfg = match raw_client_config(ca, id) {
+            Ok(c) => c,
+            Err(e) => return (Err(anyhow!("{e}")), Err(anyhow!("config"))),
+        };
+        let mk = |cfg: ClientConfig| -> Result<Endpoint> {
+            let mut endpoint = Endpoint::client("127.0.0.1:0".parse().unwrap())?;
+            endpoint.set_default_client_config(cfg);
+            Ok(endpoint)
+        };
+        let endpoint = match mk(cfg) {
+            Ok(e) => e,
+            Err(e) => return (Err(anyhow!("{e}")), Err(anyhow!("endpoint"))),
+        };
+        async fn dial(endpoint: &Endpoint, addr: SocketAddr) -> Result<Connection> {
+            Ok(tokio::time::timeout(LONG, endpoint.connect(addr, "localhost")?).await.map_err(|_| anyhow!("connect timed out"))??)
+        }
+        let a = dial(&endpoint, first).await.map(|conn| RawConn { conn, _endpoint: endpoint.clone() });
+        // give the first server time to issue its session tickets
+        tokio::time::sleep(Duration::from_millis(150)).await;
+        let b = dial(&endpoint, second).await.map(|conn| RawConn { conn, _endpoint: endpoint.clone() });
+        (a, b)
+    }
+
     /// a peer that does not send the server-name extension in its TLS hello
     pub async fn connect_without_sni(addr: SocketAddr, ca: &[u8], id: Option<&Identity>) -> Result<Self> {
         let mut endpoint = Endpoint::client("127.0.0.1:0".parse().unwrap())?;
